@@ -135,7 +135,7 @@ UNIT = Unit(
         Fn(S, "tip_906", impl="UnsealedState", mode="assume", **st_tip(830000)),
         Fn("lib/tip911-stakeset/src/lib.rs", "add_stake", impl="StakeSet", mode="assume", **ss_add_stake()),
         Fn(A, "load_stake_info", mode="assume", **ap_load_stake_info()),
-        Fn(A, "check_tx_validity", mode="assume", **ap_check_tx_validity()),
+        Fn(A, "check_tx_validity", mode="assume", **ap_check_tx_validity_stub()),
         Fn(A, "validate_and_get_doscmint_speed", mode="assume", **ap_validate_doscmint()),
         Fn(A, "create_next_state", mode="assume", **ap_create_next_state()),
         Fn(A, "apply_tx_batch_impl", home="C02", implicit_props=("C09", "C02", "C03", "C06"), **ap_batch_impl(),
